@@ -12,9 +12,27 @@ def c10(tier):
     n = 6000 if q else 200000
     wd = vlib.workdir('C10-' + tier)
     out = os.path.join(wd, 'codec.ndjson')
-    vlib.harness(['codec', 'seed=%d' % vlib.seed(), 'count=%d' % n, 'out=' + out], timeout=3000)
-    files = vlib.shard_lines(out, 1 if q else 10, wd, 'codec')
     verdict = vlib.Verdict('C10')
+    p = vlib.harness(['codec', 'seed=%d' % vlib.seed(), 'count=%d' % n, 'out=' + out], timeout=3000, check=False)
+    if p.returncode != 0:
+        # the process died inside marwood (abort, native stack overflow, unbounded allocation, no termination):
+        # that is an outcome of the code under test; the complete records written before it are still judged
+        lines = [l for l in open(out, errors='replace').read().split('\n') if l.strip()] if os.path.exists(out) else []
+        good = []
+        for l in lines:
+            try:
+                json.loads(l)
+                good.append(l)
+            except ValueError:
+                break
+        with open(out, 'w') as fh:
+            fh.write(''.join(l + '\n' for l in good))
+        verdict.violation(['C10/abort'], 'the write / read / quote-eval loop over generated data ended the process (%s) after %d of %d data: '
+                          'a datum whose round trip does not come back with a value or an error'
+                          % ((p.stderr or '')[-200:].strip() or 'rc=%s' % p.returncode, len(good), n),
+                          {'kind': 'codec-abort', 'seed': vlib.seed(), 'count': n, 'completed': len(good)})
+        n = len(good)
+    files = vlib.shard_lines(out, 1 if q else 10, wd, 'codec') if n else []
     states = 0
     ends = 0
     kinds = {}
